@@ -165,7 +165,8 @@ def unit_backward(xl_form, xu_form, pattern):
         c.check("inner_integrand_evaluates_f_at_the_node_under_enable_grad", len(xs_pt) >= 1 and
                 all(ge for (x, pt, ge) in log if isinstance(x, st.Tensor) and x.name == "xnode"))
         ag = [k for nme, k in c.calls if nme == "autograd.grad"]
-        c.check("create_graph_follows_grad_mode", all(k["create_graph"] == grad_mode for k in ag) and len(ag) >= 1)
+        c.check("create_graph_follows_grad_mode", all(k["create_graph"] == grad_mode for k in ag) and
+                (len(ag) >= 1 or "T" not in pattern))
         w = z3.Real("wnode")
         j = 0
         for i, k in enumerate(pattern):
@@ -199,5 +200,5 @@ def units(tier):
     cases = [("tensor_grad", "tensor_grad", "T"), ("tensor", "tensor_grad", "TXN"), ("number", "number", "T"),
              ("number", "tensor_grad", "TT"), ("tensor_grad", "number", "NT"), ("tensor_grad", "tensor_grad", ""),
              ("tensor", "tensor", "TU"), ("number", "number", "UT"), ("tensor_grad", "tensor", "X"),
-             ("tensor_grad", "inf", "T"), ("inf", "tensor_grad", "T")]
+             ("tensor_grad", "inf", "T"), ("inf", "tensor_grad", "T"), ("tensor", "tensor_grad", "U")]
     return [("backward[%s,%s,%s]" % (a, b, p or "-"), (lambda a=a, b=b, p=p: unit_backward(a, b, p))) for a, b, p in cases]
